@@ -2,11 +2,11 @@ SPECIFICATION Spec
 CONSTANTS
   EmitOn = FALSE
   Mode = "mc"
-  IPSets <- IP5x2
-  FnW <- FW2x2
-  FnB <- FB2x1
+  IPSets <- IP3
+  FnW <- FWq
+  FnB <- FB1
   AuthModes <- Au2
-  MaxCfgs = 1
+  MaxCfgs = 3
   MaxReqs = 0
   EthLegacyAware = TRUE
   StreamGated = FALSE
